@@ -1,4 +1,5 @@
 //! Native reproducer for finding F-wcfi-2 (= DESIGN F8, `i32::MIN / -1`; batch wcfi, property C14):
+//! STATUS: FIXED in /repo eada994 (i32::MIN / -1 => Err(InvalidFrameDataOffset)); exits 0 from that commit on.
 //! `write::cfi::factored_data_offset(offset, factor)` computes `offset / factor` in i32.  With
 //! `data_alignment_factor = -1` (a legal factor) and an offset of `i32::MIN` (a legal `i32` operand of
 //! `CallFrameInstruction::{Offset, ValOffset, Cfa, CfaOffset}`) the quotient 2^31 does not fit: the division panics
